@@ -296,3 +296,43 @@ func (p *Program) namedStruct(pkg, name string) *types.Struct {
 	st, _ := obj.Type().Underlying().(*types.Struct)
 	return st
 }
+
+
+// isUnknownHelper: a module function the rule tables do not know (see known_funcs.go): rules look through it.
+func isUnknownHelper(f *ssa.Function) bool {
+	return f != nil && len(f.Blocks) > 0 && f.Parent() == nil && strings.HasPrefix(funcPkgPath(f), modPath) && !knownFuncs[knownKey(f)]
+}
+
+// deepInstrs visits the instructions of f and, transitively (depth 3), of the unknown helpers it calls statically.
+// The term builder handed to the visitor resolves a helper's parameters to the caller's argument terms, so that
+// a pattern written against f's own values still matches after part of f was extracted into a helper.
+func deepInstrs(f *ssa.Function, visit func(g *ssa.Function, tb *TB, b *ssa.BasicBlock, in ssa.Instruction)) {
+	var walk func(g *ssa.Function, tb *TB, depth int, stack []*ssa.Function)
+	walk = func(g *ssa.Function, tb *TB, depth int, stack []*ssa.Function) {
+		allInstrs(g, func(b *ssa.BasicBlock, in ssa.Instruction) {
+			visit(g, tb, b, in)
+			ci, ok := in.(ssa.CallInstruction)
+			if !ok || depth >= 3 {
+				return
+			}
+			h := ci.Common().StaticCallee()
+			if !isUnknownHelper(h) {
+				return
+			}
+			for _, s := range stack {
+				if s == h {
+					return
+				}
+			}
+			htb := NewTB()
+			htb.bind = map[*ssa.Parameter]*Term{}
+			for i, p := range h.Params {
+				if i < len(ci.Common().Args) {
+					htb.bind[p] = tb.Of(ci.Common().Args[i])
+				}
+			}
+			walk(h, htb, depth+1, append(stack, g))
+		})
+	}
+	walk(f, NewTB(), 0, nil)
+}
